@@ -11,14 +11,14 @@ func multiPolygonReader(r io.Reader, byteOrder binary.ByteOrder) (geom.Geom, err
 	if err := binary.Read(r, byteOrder, &numPolygons); err != nil {
 		return nil, err
 	}
-	polygons := make([]geom.Polygon, numPolygons)
+	polygons := make([]geom.Polygon, 0, capHint(numPolygons, maxMemberHint))
 	for i := uint32(0); i < numPolygons; i++ {
 		if g, err := Read(r); err == nil {
-			var ok bool
-			polygons[i], ok = g.(geom.Polygon)
+			p, ok := g.(geom.Polygon)
 			if !ok {
 				return nil, &UnexpectedGeometryError{g}
 			}
+			polygons = append(polygons, p)
 		} else {
 			return nil, err
 		}
